@@ -164,7 +164,7 @@ func run(r *simkit.Run) {
 		// a pruned node: small emulated block files, a target of a few
 		// files; forks stay shallow (see pickParent) because a pruned node
 		// cannot reorganise through block data it has deleted
-		maxFile = []uint32{1200, 3000}[c.Intn(2, "prune-file-size")]
+		maxFile = []uint32{3000, 6000}[c.Intn(2, "prune-file-size")]
 		cfg.Prune = uint64(maxFile) * uint64(simkit.Range(c, 3, 6, "prune-files"))
 		r.Meta["prune"] = fmt.Sprintf("file=%d target=%d", maxFile, cfg.Prune)
 		r.Sig("prune")
@@ -482,6 +482,10 @@ func run(r *simkit.Run) {
 				o.Mut = invMuts[c.Intn(len(invMuts), "which-mut")]
 			} else if c.Bool(pLimit, "limit") {
 				o.Mut = limMuts[c.Intn(len(limMuts), "which-limit")]
+			}
+			if cfg.Prune != 0 && (strings.HasPrefix(o.Mut, "block-base-size") || strings.HasPrefix(o.Mut, "sigop")) {
+				// blocks of a megabyte do not fit the small emulated block files
+				o.Mut = ""
 			}
 			b := w.Build(parent, o)
 			r.Event("mine", "%v on %v mut=%q class=%q txs=%d", b, parent, b.Mut, b.Class, len(b.Txs))
